@@ -13,6 +13,7 @@ from vlib import *
 
 INF = float('inf')
 NAN = float('nan')
+OWRUN = os.path.join(HARNESS, 'bin', 'owrun-c16')
 RESULT_RE = re.compile(r'^(OK |PANIC|NOMODEL|NOCMD|ERROR)')
 
 
@@ -63,6 +64,21 @@ def flow_series(rng, n):
     return [rng.expovariate(1 / 2000.0) for _ in range(n)]
 
 
+def gen_flow(rng, n):
+    """flows for the generation models: mostly wet, still with exact zeros"""
+    if rng.random() < 0.6:
+        return [rng.choice([0.0, rng.uniform(0.01, 50.0), rng.uniform(0.01, 50.0), rng.uniform(0.01, 5.0), rng.expovariate(1 / 200.0)])
+                for _ in range(n)]
+    return flow_series(rng, n)
+
+
+def normal_only(xs):
+    """Go's math.Log (amd64 assembly) is wrong for subnormal arguments (Log(4.27e-319) = -709.09, true value
+    -733.07), so math.Pow of a subnormal flow is off by orders of magnitude; the pow-based models are not
+    driven with subnormal flows (physically meaningless: < 2.3e-308 m3/s)"""
+    return [0.0 if 0.0 < abs(x) < 2.3e-308 else x for x in xs]
+
+
 def any_series(rng, n):
     """flows with negatives mixed in"""
     s = flow_series(rng, n)
@@ -78,7 +94,12 @@ def series_len(rng):
 
 
 def pos_param(rng, lo=0.0, hi=100.0):
-    return rng.choice([rng.uniform(lo, hi), rng.uniform(lo, hi), nice(rng), lo, hi])
+    r = rng.random()
+    if r < 0.72:
+        return rng.uniform(lo, hi)
+    if r < 0.84:
+        return nice(rng)
+    return lo if r < 0.91 else hi
 
 
 def any_param(rng):
@@ -457,8 +478,8 @@ class BankErosion:
         p = [pp(0, 100), pp(0, 100) if rng.random() < 0.8 else pp(100, 150), pp(0, 100), pp(0, 1e-4), pp(0, 0.1), pp(0, 500),
              pp(0, 2), pp(1000, 2000), pp(0, 10), pp(0, 1e4), rng.choice([1.0, 0.5, 1.3, 2.0, rng.uniform(0.2, 2.5)]),
              rng.choice([0.0, pp(1, 1e6), pp(1, 1e6)]), pp(0, 100), rng.choice([86400.0, 3600.0, rng.uniform(1, 86400)])]
-        flow = rng.choice([flow_series, flow_series, any_series])(rng, n)
-        vol = [rng.choice([0.0, x * 86400, rng.uniform(0, 1e6), -1.0]) for x in flow]
+        flow = normal_only(rng.choice([gen_flow, gen_flow, any_series])(rng, n))
+        vol = [rng.choice([0.0, x * 86400, x * 86400, rng.uniform(0, 1e6), rng.uniform(0, 1e6), -1.0]) for x in flow]
         return p, [flow, vol], {}
 
     @staticmethod
@@ -479,7 +500,8 @@ class BankErosion:
             total = mean_annual * (math.pow(q * dur, power) / ltadf) / 365.25 * 1000.0 / dur
             need(close(fine + coarse, total, max(abs(fine), abs(coarse), abs(total)), 1e-9), 'fine+coarse=total', t,
                  flow=q, fine=fine, coarse=coarse, expected_total=total)
-            need(close(fine, (fine + coarse) * spf / 100.0, max(abs(fine), abs(coarse)), 1e-12), 'fine=total*percentFine', t,
+            need(close(fine, (fine + coarse) * spf / 100.0, max(abs(fine), abs(coarse)) * max(1.0, abs(spf / 100.0)), 1e-12),
+                 'fine=total*percentFine', t,
                  fine=fine, coarse=coarse, soilPercentFine=spf)
             if BankErosion.hyp(p):
                 need(fine >= 0 and coarse >= 0, 'nonneg', t, fine=fine, coarse=coarse)
@@ -499,10 +521,11 @@ class Usle:
              rng.choice([0.0, pp(0.1, 10000)]), pp(0, 1), pp(0, 10), pp(0, 100),
              rng.choice([0.0, pp(0, 1e8), pp(1e4, 1e8)]), rng.choice([0.0, 10000.0, pp(0, 10000), pp(0, 10), 1e9]),
              pp(0, 100), pp(0, 100), rng.choice([86400.0, 86400.0, 3600.0, rng.uniform(1, 1e5)])]
-        qf = rng.choice([flow_series, flow_series, any_series])(rng, n)
+        qf = normal_only(rng.choice([gen_flow, gen_flow, any_series])(rng, n))
         sf = flow_series(rng, n)
-        rain = [rng.choice([0.0, 0.0, rng.uniform(0, 13), rng.uniform(0, 150), 12.7, p[2]]) for _ in range(n)]
-        klsc = [rng.choice([0.0, rng.uniform(0, 5), rng.uniform(0, 500)]) for _ in range(n)]
+        rain = [rng.choice([0.0, rng.uniform(0, 13), rng.uniform(0, 150), rng.uniform(0, 150), rng.uniform(13, 60), 12.7, p[2]])
+                for _ in range(n)]
+        klsc = [rng.choice([0.0, rng.uniform(0, 5), rng.uniform(0, 5), rng.uniform(0, 500)]) for _ in range(n)]
         klscf = [rng.choice([0.0, k, k * rng.uniform(0, 0.9), k * rng.uniform(0, 0.9), k * 1.5]) for k in klsc]
         cov = [rng.random() for _ in range(n)]
         start = rng.randint(1, 366)
@@ -523,6 +546,17 @@ class Usle:
             # fine : (fine + coarse) = KLSC_Fine : KLSC
             need(close(gf * klsc, (gf + gc) * klscf, max(abs(gf), abs(gc)) * max(abs(klsc), abs(klscf)), 1e-9),
                  'generatedFine:total=KLSC_Fine:KLSC', t, fine=gf, coarse=gc, KLSC=klsc, KLSC_Fine=klscf)
+            # independent closed form of the generated fine load (documented unit factors: m2->ha 1e-4, t->kg 1e3,
+            # kg->mg 1e6, m3/s->ML/day 86.4, ML->L 1e6)
+            if qf > 0 and rain > thr and ts != 0:
+                Rf = alpha * (1 + eta * math.cos(2 * math.pi * (doy - 15) / 365)) * math.pow(rain, beta)
+                if Rf * klsc > 0:
+                    mass = Rf * klscf * area * 1e-4 * 1e3
+                    litres = qf * 86.4 * 1e6
+                    if mass * 1e6 / litres > maxc:
+                        mass = maxc * litres / 1e6
+                    need(close(gf, mass / ts, None, 1e-9), 'generatedFine-closed-form', t, quickflow=qf, rain=rain, KLSC_Fine=klscf,
+                         got=gf, expected=mass / ts)
             if not (qf > 0) or not (rain > thr):
                 need(qlf == 0 and qlc == 0 and gf == 0 and gc == 0, 'zero-when-no-quickflow-or-no-erosive-rain', t,
                      quickflow=qf, rain=rain, threshold=thr, got=[qlf, qlc, gf, gc])
@@ -547,11 +581,11 @@ class _Gully:
              rng.choice([1.0, pp(0, 2)]), rng.choice([0.0, -1.0, pp(0.1, 100), pp(0.1, 100)]),
              rng.choice([0.0, -1.0, 1.0, 0.5, rng.uniform(0.2, 2.5)]), pp(0, 100), pp(0, 100),
              rng.choice([86400.0, 86400.0, 3600.0, rng.uniform(1, 1e5)])]
-        qf = rng.choice([flow_series, flow_series, any_series])(rng, n)
-        y0 = int(yd) + rng.randint(-3, 30)
+        qf = normal_only(rng.choice([gen_flow, gen_flow, any_series])(rng, n))
+        y0 = int(yd) + rng.randint(-8, 12)
         year = [float(y0 + i // 3) for i in range(n)]
-        ar = [rng.choice([0.0, rng.uniform(1, 2000), rng.uniform(1, 2000)]) for _ in range(n)]
-        al = [rng.choice([0.0, rng.uniform(0, 1e6), rng.uniform(0, 1e6)]) for _ in range(n)]
+        ar = [rng.choice([0.0, rng.uniform(1, 2000), rng.uniform(1, 2000), rng.uniform(1, 2000), rng.uniform(1, 2000)]) for _ in range(n)]
+        al = [rng.choice([0.0, rng.uniform(0, 1e6), rng.uniform(0, 1e6), rng.uniform(0, 1e6)]) for _ in range(n)]
         return p, [qf, year, ar, al], {}
 
     @classmethod
@@ -567,6 +601,19 @@ class _Gully:
             # what the code does: fine : coarse = propFine*activity : (1 - propFine)
             need(close(gf * (1 - pf), gc * pf * a, max(abs(gf * (1 - pf)), abs(gc * pf * a)), 1e-9),
                  'fine:coarse=propFine*activity:(1-propFine)', t, fine=gf, coarse=gc, propFine=pf, activity=a)
+            # independent closed form on generating steps (documented unit factors: t->kg 1000, m->mm 1000, 86400 s/day, 365.25 d/yr)
+            if qf != 0 and ar != 0 and yr >= yd and ts != 0:
+                if cls.alt:
+                    depth = qf / area * 1000.0 * 86400.0 if area != 0 else NAN
+                    ef = depth / ar * pf * a * (mpf * al) / ts
+                    ec = depth / ar * (1 - pf) * (mpf * al) / ts
+                else:
+                    drf = (math.pow(qf, drpf if drpf > 0 else 1.0) / ltrf) if (ltrf > 0 and qf > 0) else (1.0 if not ltrf > 0 else NAN)
+                    ef = drf * pf * a * mpf * supply * 1000.0 / 365.25 / ts
+                    ec = drf * (1 - pf) * supply * mpf * 1000.0 / 365.25 / ts
+                if math.isfinite(ef) and math.isfinite(ec):
+                    need(close(gf, ef, None, 1e-9) and close(gc, ec, None, 1e-9), 'generated-load-closed-form', t,
+                         quickflow=qf, year=yr, annualRunoff=ar, annualLoad=al, got=[gf, gc], expected=[ef, ec])
             driver_supply = al if cls.alt else supply
             if qf == 0 or yr < yd or ar == 0 or (driver_supply == 0 and math.isfinite(gf) and math.isfinite(gc)):
                 need(fl == 0 and cl == 0 and gf == 0 and gc == 0, 'zero-when-driver-zero', t, quickflow=qf, year=yr,
@@ -581,22 +628,125 @@ model('DynamicSednetGully', exact=False)(type('DynamicSednetGully', (_Gully,), {
 model('DynamicSednetGullyAlt', exact=True)(type('DynamicSednetGullyAlt', (_Gully,), {'alt': True}))
 
 
+def branches(name, p, ins, o, meta):
+    """labels of the model branches a case exercised (measured from the case and the implementation's output)"""
+    b = set()
+    n = len(ins[0]) if ins else 0
+    if n == 0:
+        b.add('empty-series')
+    if name == 'PartitionDemand':
+        for x, d in zip(ins[0], ins[1]):
+            b.add('demand<0' if d < 0 else 'demand>available' if d > x else 'demand<=available')
+            if x < 0:
+                b.add('input<0')
+    elif name in ('ApplyScalingFactor', 'DeliveryRatio', 'FixedConcentration', 'PassLoadIfFlow'):
+        b.add('early-return(param==0)' if p[0] == 0 else 'loop')
+        if name == 'PassLoadIfFlow' and p[0] != 0:
+            for f in ins[0]:
+                b.add('flow>1e-8' if f > 1e-8 else 'flow<=1e-8')
+    elif name == 'DepthToRate':
+        b.add('early-return(area==0)' if p[1] == 0 else 'loop')
+    elif name == 'EmcDwc':
+        b.add('early-return(emc==dwc==0)' if p[0] == 0 and p[1] == 0 else 'loop')
+    elif name == 'Gate':
+        for t in ins[0]:
+            b.add('trigger>0' if t > 0 else 'trigger<=0')
+    elif name == 'ComputeProportion':
+        for d in ins[1]:
+            b.add('denominator==0' if d == 0 else 'denominator!=0')
+    elif name == 'RatingCurvePartition':
+        b.add('table:' + meta['kind'])
+        b.add('returned' if o is not None else 'panicked')
+    elif name == 'BankErosion':
+        for q, v in zip(ins[0], ins[1]):
+            b.add('zero-factor' if (v <= 0 or q <= 0 or p[11] <= 0) else 'generating')
+    elif name == 'SednetParticulateNutrientGeneration':
+        b.add('creams-flag-on' if p[8] > 0.5 else 'creams-flag-off')
+    elif name == 'USLEFineSedimentGeneration' and o is not None:
+        thr, maxc, ts = p[2], p[14], p[17]
+        for t in range(n):
+            qf, rain = ins[0][t], ins[2][t]
+            b.add('erosive-rain' if rain > thr else 'no-erosive-rain')
+            gf, gc = o[6][t], o[7][t]
+            if gf != 0 or gc != 0:
+                b.add('event')
+                conc = gf * ts * 1e6 / (qf * 86.4 * 1e6) if qf > 0 else 0.0
+                b.add('event:capped-at-maxConc' if maxc > 0 and abs(conc - maxc) <= 1e-6 * maxc else 'event:uncapped')
+            else:
+                b.add('no-event')
+    elif name.startswith('DynamicSednetGully'):
+        yd, ey = p[0], p[1]
+        for t in range(n):
+            qf, yr, ar = ins[0][t], ins[1][t], ins[2][t]
+            if yr < yd:
+                b.add('before-disturbance')
+            elif qf == 0 or ar == 0:
+                b.add('zero-runoff')
+            else:
+                b.add('generating:activity-factor' if yr > ey else 'generating:active')
+                if not name.endswith('Alt'):
+                    b.add('orig:power-factor' if p[7] > 0 else 'orig:no-longterm-factor')
+    return b
+
+
 def agree(ri, rm, exact):
     if exact:
         return kresults_agree(ri, rm)
     if ri[0] == 'OK' and rm[0] == 'OK':
         mx = max([abs(v) for r in ri[1] for v in r if math.isfinite(v)] + [0.0])
-        return kresults_agree(ri, rm, rtol=1e-9, atol=1e-9 * mx + 1e-300)
+        return kresults_agree(ri, rm, rtol=1e-9, atol=1e-13 * mx + 1e-300)
     return kresults_agree(ri, rm)
 
 
+def replay(path):
+    """re-run one recorded case on the implementation and the model and re-evaluate the oracle"""
+    import json
+    obj = json.load(open(path))
+    line = obj.get('case_line')
+    if not line:
+        print('replay file has no case (kind=%s): %s' % (obj.get('kind'), obj.get('what', '')))
+        sys.exit(1)
+    build_harness(['owrun'])
+    build_driver()
+    sh(['go', 'build', '-tags', 'verif', '-o', OWRUN, './cmd/owrun'], cwd=HARNESS, env=GOENV, timeout=1800)
+    li = run_filtered(OWRUN, [line], 'CRASH', env=GOENV)[0]
+    lm = run_filtered(os.path.join(OCAML, 'driver'), [line], 'MODELCRASH')[0]
+    name = obj['model']
+    m = MODELS[name]
+    ri, rm = parse_kresult(li), parse_kresult(lm)
+    print('impl :', li[:300])
+    print('model:', lm[:300])
+    print('correspondence:', agree(ri, rm, m.exact) or 'agree')
+    bad = False
+    if ri[0] == 'OK':
+        try:
+            meta = {'kind': 'replay', 'wellformed': False, 'inside': False}
+            m.oracle(obj['params'], obj['inputs'], ri[1], meta)
+            print('oracle: holds')
+        except Fail as f:
+            print('oracle: FAILS clause=%s timestep=%d detail=%r' % (f.clause, f.t, f.detail))
+            bad = True
+    else:
+        print('oracle: implementation did not return a result')
+        bad = True
+    sys.exit(1 if bad else 0)
+
+
 def main():
+    for i, a in enumerate(sys.argv):
+        if a == '--replay' and i + 1 < len(sys.argv):
+            replay(sys.argv[i + 1])
     c = Check('C16')
     quick = c.tier == 'quick'
     rng = c.rng
     # 1. build the Go side against /repo's working tree and regenerate Gen/Units.v
     try:
         build_harness(['owrun', 'unitsgen'])
+        # a private copy of the runner: harness/bin/owrun is shared with the other checks, which may rebuild it
+        # (against a concurrently mutated /repo) while this check is running
+        import vlib
+        with vlib._Lock():
+            sh(['go', 'build', '-tags', 'verif', '-o', OWRUN, './cmd/owrun'], cwd=HARNESS, env=GOENV, timeout=1800)
         with_lock_out = sh([os.path.join(HARNESS, 'bin', 'unitsgen'), '-o', os.path.join(COQ, 'Gen', 'Units.v'),
                             '-x', os.path.join(REPO, 'models/generation/pass_load_if_flow.go'),
                             os.path.join(REPO, 'conv/units'), os.path.join(REPO, 'conv/rough')])
@@ -627,7 +777,7 @@ def main():
                     ins = [special(rng, r) if i == k else r for i, r in enumerate(ins)]
                     cases.append((name, p, ins, meta, 'special'))
     lines = [kcase(name, p, [], ins) for (name, p, ins, meta, st) in cases]
-    impl = run_filtered(os.path.join(HARNESS, 'bin', 'owrun'), lines, 'CRASH', env=GOENV)
+    impl = run_filtered(OWRUN, lines, 'CRASH', env=GOENV)
     mod = run_filtered(os.path.join(OCAML, 'driver'), lines, 'MODELCRASH')
 
     stats = {}
@@ -635,8 +785,11 @@ def main():
     for i, ((name, p, ins, meta, stream), li, lm) in enumerate(zip(cases, impl, mod)):
         m = MODELS[name]
         ri, rm = parse_kresult(li), parse_kresult(lm)
-        st = stats.setdefault(name, {'cases': 0, 'nontrivial': 0, 'impl_panics': 0, 'oracle_steps': 0})
+        st = stats.setdefault(name, {'cases': 0, 'nontrivial': 0, 'impl_panics': 0, 'oracle_steps': 0, 'branches': {}})
         st['cases'] += 1
+        if stream == 'main':
+            for lab in branches(name, p, ins, ri[1] if ri[0] == 'OK' else None, meta):
+                st['branches'][lab] = st['branches'].get(lab, 0) + 1
         nontriv = ri[0] == 'OK' and any(v != 0.0 for r in ri[1] for v in r)
         c.count((name, p, ins), nontrivial=nontriv)
         if nontriv:
